@@ -117,6 +117,36 @@ struct FormatCase {
     bool split_possible = true; // pieces might split a character (decided from the reference boundaries)
 };
 
+// An argument of a user-defined type whose format_type() itself calls ST::format (a formatter built out of the library's own formatting, as
+// a caller would write it): the outer call's output around it must be intact in every sink.
+struct NestedArg { int v; const char *inner; };
+inline void format_type(const ST::format_spec &, ST::format_writer &out, const NestedArg &n) {
+    ST::string in = ST::format(n.inner, n.v, "in", NestedArg{n.v / 7, n.v % 3 ? "{}~{}" : "[{x}/{}]"}.v);
+    out.append(in.c_str(), in.size());
+}
+std::string check_nested(unsigned sel) {
+    static const char *const inners[] = {"<{}:{}:{}>", "{>6}{_*<5}{x}", "{#x}|{}|{+}", "{}{}{}"};
+    static const char *const widths[] = {"", ">12", "<20_.", "_*>300"};
+    const int k1 = (int)(sel * 2654435761u >> 7) - 100000, k2 = (int)(sel % 977) * 13;
+    NestedArg na{(int)(sel % 100000) - 500, inners[sel & 3]};
+    std::string outer = std::string("{") + widths[(sel >> 2) & 3] + "}<{}>{x}|{}";
+    std::string A, B, C, D, full, viaFile, viaStream;
+    try {
+        { ST::string t = ST::format((std::string("{") + widths[(sel >> 2) & 3] + "}<").c_str(), k1); A.assign(t.c_str(), t.size()); }
+        { ST::string t = ST::format(na.inner, na.v, "in", NestedArg{na.v / 7, ""}.v); B.assign(t.c_str(), t.size()); }
+        { ST::string t = ST::format(">{x}|", k2); C.assign(t.c_str(), t.size()); }
+        { ST::string t = ST::format("{}", "tail"); D.assign(t.c_str(), t.size()); }
+        { ST::string t = ST::format(outer.c_str(), k1, na, k2, "tail"); full.assign(t.c_str(), t.size()); }
+        { char *mb = nullptr; size_t ms = 0; FILE *fp = open_memstream(&mb, &ms); if (fp) { ST::printf(fp, outer.c_str(), k1, na, k2, "tail"); fclose(fp); viaFile.assign(mb, ms); free(mb); } }
+        { std::ostringstream os; ST::writef(os, outer.c_str(), k1, na, k2, "tail"); viaStream = os.str(); }
+    } catch (...) { return "a format call with an argument whose format_type() calls ST::format itself ended with " + verif::describe_current_exception(); }
+    const std::string want = A + B + C + D;
+    if (full != want) return "ST::format(\"" + outer + "\", int, <user type whose format_type() calls ST::format>, int, text) gives " + verif::quoted(full, 160) + " but the pieces formatted one by one give " + verif::quoted(want, 160);
+    if (viaFile != want) return "ST::printf(FILE*) with an argument whose format_type() calls ST::format wrote " + verif::quoted(viaFile, 160) + ", ST::format gives " + verif::quoted(want, 160);
+    if (viaStream != want) return "ST::writef(ostream) with an argument whose format_type() calls ST::format wrote " + verif::quoted(viaStream, 160) + ", ST::format gives " + verif::quoted(want, 160);
+    return std::string();
+}
+
 // The oracle for one format call over all sinks.  "" when the property holds.
 std::string check_sinks(const FormatCase &k, Case &c, bool &nontrivial) {
     verif::Exact<char> f(k.fmt.data(), k.fmt.size(), true);
@@ -131,10 +161,11 @@ std::string check_sinks(const FormatCase &k, Case &c, bool &nontrivial) {
         if (!fp) throw std::runtime_error("open_memstream failed");
         // however the call ends, the FILE* must be usable by another thread afterwards (a stdio lock taken and not released would block it forever)
         auto left_locked = [&] { bool busy = false; std::thread t([&] { if (ftrylockfile(fp) == 0) funlockfile(fp); else busy = true; }); t.join(); return busy; };
+        if (verif::g_file_error_pre) (void)fgetc(fp);      // a stray read on the write-only stream: its error indicator is set before ST::printf starts; the bytes must come out all the same
         try { with_args(args, [&](const auto &...x) { ST::printf(fp, fs, x...); }); }
         catch (...) { bool busy = left_locked(); fclose(fp); free(mb); if (busy) throw std::runtime_error("ST::printf threw and left the FILE* locked: a later writer on another thread would block forever"); throw; }
         if (left_locked()) { fclose(fp); free(mb); throw std::runtime_error("ST::printf returned and left the FILE* locked: a later writer on another thread would block forever"); }
-        bool err = ferror(fp) != 0;
+        bool err = ferror(fp) != 0 && !verif::g_file_error_pre;
         fclose(fp); o.assign(mb, ms); free(mb);
         if (err) throw std::runtime_error("FILE* error indicator set");
     });
@@ -412,6 +443,7 @@ int verif_case(const uint8_t *data, size_t size, Case &c) {
         bool nt = false;
         std::string why = check_sinks(k, c, nt);
         c.nontrivial = nt;
+        if (why.empty()) why = check_nested((unsigned)(c.hash ^ (c.hash >> 32)));
         if (!why.empty()) return c.fail(why);
         return verif::CASE_OK;
     }
